@@ -374,7 +374,8 @@ def install(reg):
             return [wrap(arr.get((i,))) for i in range(arr.shape[0])]
         if arr.ndim == 1:
             g = arr.getter()
-            return SSeq(arr.shape[0], lambda kk: wrap(g((kk,))), "list")
+            from ..engine.values import SList
+            return SList(arr.shape[0], lambda kk: wrap(g((kk,))), "tolist")
         raise Unsupported("tolist on rank>1")
     reg.array_methods["tolist"] = _tolist
 
